@@ -6,83 +6,102 @@ import GruleModel.Proofs.ParseDoc
 namespace Grule.ParseFuel
 open Grule Grule.Syntax Grule.ParseGroup Grule.ParseAtoms Grule.ParseDoc
 
-variable (d : Dec) (cT : Const → List Token) (ot : BinOp → List Char) (dT : String → Token)
+variable (d : Dec) (cT : Const → List Token) (ot : BinOp → List Char) (dT : String → Token) (P : Const → Prop)
 
-theorem cT_len (hc : ConstOK d cT) (c : Const) : 1 ≤ (cT c).length := by
-  obtain ⟨t, rest, h, _⟩ := const_tokens d cT hc c
+theorem cT_len (hc : ConstOK d cT P) (c : Const) (hp : P c) : 1 ≤ (cT c).length := by
+  obtain ⟨t, rest, h, _⟩ := const_tokens d cT P hc c hp
   rw [h]; simp
 
 mutual
-  theorem sizeE (hc : ConstOK d cT) : (e : Expr) → nE e + 4 ≤ 16 * (fE cT ot e).length
+  theorem sizeE (hc : ConstOK d cT P) : (e : Expr) → WFE P e → nE e + 4 ≤ 16 * (fE cT ot e).length
     | .bin op l r => by
-      have h1 := sizeE hc l; have h2 := sizeE hc r
+      intro hw; simp only [WFE] at hw
+      have h1 := sizeE hc l hw.1; have h2 := sizeE hc r hw.2.1
       simp only [nE, fE, List.length_append, List.length_cons]; omega
     | .paren neg e => by
-      have h1 := sizeE hc e
+      intro hw; simp only [WFE] at hw
+      have h1 := sizeE hc e hw
       cases neg <;> simp only [nE, fE, List.length_append, List.length_cons, List.length_nil, if_true, if_false, Bool.false_eq_true] <;> omega
     | .atom a => by
-      have h1 := sizeA hc a
+      intro hw; simp only [WFE] at hw
+      have h1 := sizeA hc a hw
       simp only [nE, fE]; omega
-  theorem sizeA (hc : ConstOK d cT) : (a : Atom) → nA a + 7 ≤ 16 * (fA cT ot a).length
-    | .const c => by have := cT_len d cT hc c; simp only [nA, fA]; omega
-    | .var v => by have := sizeV hc v; simp only [nA, fA]; omega
+  theorem sizeA (hc : ConstOK d cT P) : (a : Atom) → WFA P a → nA a + 7 ≤ 16 * (fA cT ot a).length
+    | .const c => by
+      intro hw; simp only [WFA] at hw
+      have := cT_len d cT P hc c hw; simp only [nA, fA]; omega
+    | .var v => by
+      intro hw; simp only [WFA] at hw
+      have := sizeV hc v hw; simp only [nA, fA]; omega
     | .call f args => by
-      have := sizeArgs hc args
+      intro hw; simp only [WFA] at hw
+      have := sizeArgs hc args hw
       simp only [nA, fA, List.length_append, List.length_cons, List.length_nil]; omega
     | .meth r f args => by
-      have h1 := sizeA hc r; have h2 := sizeArgs hc args
+      intro hw; simp only [WFA] at hw
+      have h1 := sizeA hc r hw.1; have h2 := sizeArgs hc args hw.2.2
       simp only [nA, fA, List.length_append, List.length_cons, List.length_nil]; omega
     | .member r n => by
-      have h1 := sizeA hc r
+      intro hw; simp only [WFA] at hw
+      have h1 := sizeA hc r hw.1
       simp only [nA, fA, List.length_append, List.length_cons, List.length_nil]; omega
     | .sel r idx => by
-      have h1 := sizeA hc r; have h2 := sizeE hc idx
+      intro hw; simp only [WFA] at hw
+      have h1 := sizeA hc r hw.1; have h2 := sizeE hc idx hw.2.2.2
       simp only [nA, fA, List.length_append, List.length_cons, List.length_nil]; omega
     | .neg a => by
-      have h1 := sizeA hc a
+      intro hw; simp only [WFA] at hw
+      have h1 := sizeA hc a hw
       simp only [nA, fA, List.length_cons]; omega
-  theorem sizeV (hc : ConstOK d cT) : (v : Var) → nV v + 10 ≤ 16 * (fV cT ot v).length
-    | .root n => by simp [nV, fV]
+  theorem sizeV (hc : ConstOK d cT P) : (v : Var) → WFV P v → nV v + 10 ≤ 16 * (fV cT ot v).length
+    | .root n => by intro _; simp [nV, fV]
     | .field v n => by
-      have h1 := sizeV hc v
+      intro hw; simp only [WFV] at hw
+      have h1 := sizeV hc v hw
       simp only [nV, fV, List.length_append, List.length_cons, List.length_nil]; omega
     | .index v e => by
-      have h1 := sizeV hc v; have h2 := sizeE hc e
+      intro hw; simp only [WFV] at hw
+      have h1 := sizeV hc v hw.1; have h2 := sizeE hc e hw.2
       simp only [nV, fV, List.length_append, List.length_cons, List.length_nil]; omega
-  theorem sizeArgs (hc : ConstOK d cT) : (args : Args) → nArgs args ≤ 16 * (fArgs cT ot args).length + 2
-    | .nil => by simp [nArgs, fArgs]
+  theorem sizeArgs (hc : ConstOK d cT P) : (args : Args) → WFArgs P args → nArgs args ≤ 16 * (fArgs cT ot args).length + 2
+    | .nil => by intro _; simp [nArgs, fArgs]
     | .cons e rest => by
-      have h1 := sizeE hc e; have h2 := sizeMore hc rest
+      intro hw; simp only [WFArgs] at hw
+      have h1 := sizeE hc e hw.1; have h2 := sizeMore hc rest hw.2
       simp only [nArgs, fArgs, List.length_append]; omega
-  theorem sizeMore (hc : ConstOK d cT) : (args : Args) → nArgs args ≤ 16 * (fMore cT ot args).length + 2
-    | .nil => by simp [nArgs, fMore]
+  theorem sizeMore (hc : ConstOK d cT P) : (args : Args) → WFArgs P args → nArgs args ≤ 16 * (fMore cT ot args).length + 2
+    | .nil => by intro _; simp [nArgs, fMore]
     | .cons e rest => by
-      have h1 := sizeE hc e; have h2 := sizeMore hc rest
+      intro hw; simp only [WFArgs] at hw
+      have h1 := sizeE hc e hw.1; have h2 := sizeMore hc rest hw.2
       simp only [nArgs, fMore, List.length_append, List.length_cons]; omega
 end
 
-theorem sizeAct (hc : ConstOK d cT) (a : Action) : nAct a + 1 ≤ 16 * (fAction cT ot a).length := by
+theorem sizeAct (hc : ConstOK d cT P) (a : Action) (hw : WFAct P a) : nAct a + 1 ≤ 16 * (fAction cT ot a).length := by
   cases a with
   | assign op v e =>
-    have h1 := sizeV d cT ot hc v; have h2 := sizeE d cT ot hc e
+    simp only [WFAct] at hw
+    have h1 := sizeV d cT ot P hc v hw.1; have h2 := sizeE d cT ot P hc e hw.2
     simp only [nAct, fAction, List.length_append, List.length_cons, List.length_nil]; omega
   | stmt a =>
-    have h1 := sizeA d cT ot hc a
+    simp only [WFAct] at hw
+    have h1 := sizeA d cT ot P hc a hw
     simp only [nAct, fAction, List.length_append, List.length_cons, List.length_nil]; omega
 
-theorem sizeActs (hc : ConstOK d cT) (acts : List Action) : ∀ m, acts.foldl (fun m a => m + nAct a) m + acts.length ≤ m + 16 * (fActs cT ot acts).length := by
+theorem sizeActs (hc : ConstOK d cT P) (acts : List Action) : (∀ a ∈ acts, WFAct P a) →
+    ∀ m, acts.foldl (fun m a => m + nAct a) m + acts.length ≤ m + 16 * (fActs cT ot acts).length := by
   induction acts with
-  | nil => intro m; simp [fActs]
+  | nil => intro _ m; simp [fActs]
   | cons a rest ih =>
-    intro m
-    have h1 := sizeAct d cT ot hc a
-    have h2 := ih (m + nAct a)
+    intro hw m
+    have h1 := sizeAct d cT ot P hc a (hw a (by simp))
+    have h2 := ih (fun x hx => hw x (by simp [hx])) (m + nAct a)
     simp only [List.foldl_cons, List.length_cons, fActs, List.length_append]
     omega
 
-theorem sizeRule (hc : ConstOK d cT) (r : Rule) : nRule r ≤ 16 * (fRule cT ot dT r).length := by
-  have h1 := sizeE d cT ot hc r.cond
-  have h2 := sizeActs d cT ot hc r.acts 0
+theorem sizeRule (hc : ConstOK d cT P) (r : Rule) (hw : WFRule P r) : nRule r ≤ 16 * (fRule cT ot dT r).length := by
+  have h1 := sizeE d cT ot P hc r.cond hw.1
+  have h2 := sizeActs d cT ot P hc r.acts hw.2.2.1 0
   unfold nRule fRule
   simp only [List.length_cons, List.length_append, List.length_nil]
   omega
@@ -104,21 +123,21 @@ theorem doc_len : (rules : List Rule) → rules.length ≤ (fDoc cT ot dT rules)
     omega
 
 /-- **with fuel `16·|tokens| + 16` and `|tokens| + 1` rule iterations** every well-formed document is read back -/
-theorem parse_doc_fuel (hc : ConstOK d cT) (rules : List Rule) (hw : ∀ r ∈ rules, WFRule r ∧ DescOK dT r.desc) :
+theorem parse_doc_fuel (hc : ConstOK d cT P) (rules : List Rule) (hw : ∀ r ∈ rules, WFRule P r ∧ DescOK dT r.desc) :
     parseRules d (16 * (fDoc cT ot dT rules).length + 16) ((fDoc cT ot dT rules).length + 1) (fDoc cT ot dT rules) [] = (rules, none) := by
   have hf : ∀ r ∈ rules, nRule r ≤ 16 * (fDoc cT ot dT rules).length + 15 := by
     intro r hr
-    have h1 := sizeRule d cT ot dT hc r
+    have h1 := sizeRule d cT ot dT P hc r (hw r hr).1
     have h2 := fRule_le_doc cT ot dT rules r hr
     omega
   have hn := doc_len cT ot dT rules
-  exact parse_doc d cT ot dT hc rules hw (16 * (fDoc cT ot dT rules).length + 15) ((fDoc cT ot dT rules).length + 1) hf (by omega)
+  exact parse_doc d cT ot dT P hc rules hw (16 * (fDoc cT ot dT rules).length + 15) ((fDoc cT ot dT rules).length + 1) hf (by omega)
 
 /-- **the document parser itself** (`parseDoc`, with its own fuel) reads every well-formed document back -/
-theorem parseDoc_roundtrip (hc : ConstOK d cT) (rules : List Rule) (hw : ∀ r ∈ rules, WFRule r ∧ DescOK dT r.desc) :
+theorem parseDoc_roundtrip (hc : ConstOK d cT P) (rules : List Rule) (hw : ∀ r ∈ rules, WFRule P r ∧ DescOK dT r.desc) :
     parseDoc d (fDoc cT ot dT rules) = (rules, none) := by
   unfold parseDoc fuelFor
-  exact parse_doc_fuel d cT ot dT hc rules hw
+  exact parse_doc_fuel d cT ot dT P hc rules hw
 
 #print axioms parse_doc_fuel
 #print axioms parseDoc_roundtrip
